@@ -52,10 +52,11 @@ var c19LooseOK = map[string]string{
 }
 
 func checkC19(c *Ctx, r *Report) {
-	r.Explain = "Decides structural necessary conditions of body fidelity: (R1) number-preserving decoding — no function of base, db, rest or channels decodes JSON into an untyped container (Body, map[string]any, []any, any) with the plain decoder except the listed non-document sites; document bodies go through the number-preserving Body.Unmarshal / decoder with UseNumber; (R2) every write path validates before it commits — validateNewBody inside prepareSyncFn precedes the sync function and sequence assignment for every write, the REST, replication and import entry points run their own validators before entering the CAS loop, each validator still rejects its full list of reserved names, and the cheap byte pre-filter in front of the replication validator searches for the bare quoted key (JSON allows whitespace before the colon); (R3) reserved properties are added to a body only through the JSON splicer. Not decided: fidelity for arbitrary JSON (a statement about bytes produced at run time), the splicer's behaviour on odd inputs."
+	r.Explain = "Decides structural necessary conditions of body fidelity: (R1) number-preserving decoding — no function of base, db, rest or channels decodes JSON into an untyped container (Body, map[string]any, []any, any) with the plain decoder except the listed non-document sites; document bodies go through the number-preserving Body.Unmarshal / decoder with UseNumber; (R2) every write path validates before it commits — validateNewBody inside prepareSyncFn precedes the sync function and sequence assignment for every write, the REST, replication and import entry points run their own validators before entering the CAS loop, each validator still rejects its full list of reserved names, and the cheap byte pre-filter in front of the replication validator searches for the bare quoted key (JSON allows whitespace before the colon); (R3) reserved properties are added to a body only through the JSON splicer.; (R4) externally stored bodies of non-winning revisions are deleted only after the commit that no longer needs them. Not decided: fidelity for arbitrary JSON (a statement about bytes produced at run time), the splicer's behaviour on odd inputs."
 	c19R1(c, r)
 	c19R2(c, r)
 	c19R3(c, r)
+	c19R4(c, r)
 }
 
 func c19R1(c *Ctx, r *Report) {
